@@ -30,6 +30,8 @@ pub struct Proj {
     pub slice: bool,
     /// special handling, see `Mode`
     pub mode: Mode,
+    /// `A` (disassembly) lines: compare only the size field
+    pub da_size_only: bool,
 }
 
 #[derive(Clone, Copy, Debug, PartialEq)]
@@ -58,6 +60,7 @@ pub const FULL: Proj = Proj {
     other: true,
     slice: true,
     mode: Mode::Plain,
+    da_size_only: false,
 };
 pub const NONE: Proj = Proj {
     fmask: 0,
@@ -72,6 +75,7 @@ pub const NONE: Proj = Proj {
     other: false,
     slice: false,
     mode: Mode::Plain,
+    da_size_only: false,
 };
 
 /// A relation between two replies of the implementation inside one case.
@@ -90,7 +94,18 @@ fn cap() -> usize {
     MISMATCH_CAP.load(std::sync::atomic::Ordering::Relaxed)
 }
 
+/// C18: the timed calls `t` (command indices) against the T-states the twin plain steps `x` returned:
+/// a sleep request exactly when the accumulated count exceeds `smax`, counter = the accumulated count
+#[derive(Clone, Debug)]
+pub struct Accounting {
+    pub t: Vec<usize>,
+    pub x: Vec<usize>,
+    pub smax: u32,
+    pub scur: u32,
+}
+
 pub struct Case {
+    pub acct: Option<Accounting>,
     pub cmds: Vec<Cmd>,
     pub projs: Vec<Proj>,
     pub rels: Vec<Rel>,
@@ -102,7 +117,7 @@ pub struct Case {
 
 impl Case {
     pub fn new(tag: String) -> Case {
-        Case { cmds: vec![], projs: vec![], rels: vec![], key: tag.clone(), tag }
+        Case { acct: None, cmds: vec![], projs: vec![], rels: vec![], key: tag.clone(), tag }
     }
     pub fn push(&mut self, c: Cmd, p: Proj) -> usize {
         self.cmds.push(c);
@@ -251,10 +266,10 @@ fn compare_r(a: &[&str], b: &[&str], p: &Proj) -> Option<String> {
     // trailing fields: T lines carry <sleep> <counter>, SP16 lines carry <pair value>
     let ta: Vec<&&str> = a[13..].iter().filter(|t| !t.contains('=')).collect();
     let tb: Vec<&&str> = b[13..].iter().filter(|t| !t.contains('=')).collect();
+    if ta.len() == 2 && ta[0].starts_with('X') {
+        return Some(format!("requested sleep {} exceeds the slice duration", &ta[0][1..]));
+    }
     if p.slice && ta.len() == 2 && tb.len() == 2 {
-        if ta[0].starts_with('X') {
-            return Some(format!("requested sleep {} exceeds the slice duration", &ta[0][1..]));
-        }
         if (*ta[0] == "-") != (*tb[0] == "-") {
             return Some("sleep request".into());
         }
@@ -334,6 +349,12 @@ pub fn compare(imp: &str, model: &str, p: &Proj) -> Option<(String, bool)> {
         }
     } else if !p.other {
         None
+    } else if imp.starts_with("A ") && p.da_size_only {
+        if imp.split(' ').nth(1) == model.split(' ').nth(1) {
+            None
+        } else {
+            Some(("disassembly size".into(), false))
+        }
     } else if imp.starts_with("A ") {
         if collapse_ws(imp) == collapse_ws(model) {
             None
@@ -498,6 +519,45 @@ pub fn run_chunk(drv: &str, tmpdir: &str, cases: &[Case]) -> Stats {
                             oracle,
                         });
                     }
+                }
+            }
+        }
+        // C18 accounting oracle on the implementation's own T-states
+        if let Some(ac) = &c.acct {
+            st.relations += 1;
+            let mut acc = ac.scur;
+            for (k, (&ti, &xi)) in ac.t.iter().zip(ac.x.iter()).enumerate() {
+                let (Some(tl), Some(xl)) = (ran[ci].lines.get(ti).and_then(|v| v.last()), ran[ci].lines.get(xi).and_then(|v| v.last())) else { break };
+                let tt: Vec<&str> = tl.1.split(' ').collect();
+                let xt: Vec<&str> = xl.1.split(' ').collect();
+                if tt.len() < 15 || xt.len() < 12 || !tl.1.starts_with("R ") || !xl.1.starts_with("R ") {
+                    break;
+                }
+                let fired = acc > ac.smax;
+                if fired {
+                    acc = 0;
+                }
+                acc = acc.wrapping_add(xt[11].parse::<u32>().unwrap_or(0));
+                let got_fired = tt[13] != "-";
+                let got_cur = u32::from_str_radix(tt[14], 16).unwrap_or(0);
+                if (got_fired != fired || got_cur != acc) && !reported {
+                    st.mismatch_count += 1;
+                    st.oracle_count += 1;
+                    reported = true;
+                    if st.mismatches.len() < cap() {
+                        st.mismatches.push(Mismatch {
+                            tag: c.tag.clone(),
+                            key: c.key.clone(),
+                            script: script(),
+                            line_no: ti,
+                            cmd: format!("timed call #{}", k),
+                            imp: tl.1.clone(),
+                            model: format!("expected request={} counter={:08X} from the T-states the plain steps returned", fired, acc),
+                            what: "slice accounting".into(),
+                            oracle: true,
+                        });
+                    }
+                    break;
                 }
             }
         }
